@@ -89,6 +89,10 @@ def finding_key(case, failure):
 BATTERY = [
     {"x1": 0, "y1": 0, "x2": 12, "y2": 0, "x3": 0, "y3": 12, "x4": 1, "y4": 1, "x5": 6, "y5": 1, "x6": 1, "y6": 6,
      "cx1": -1, "cy1": -1, "w5": 20, "h5": 20, "w1": 14, "h1": 14},
+    # overlapping clip children of opposite orientation (a union must not cancel them)
+    {"cx1": 0, "cy1": 0, "w5": 10, "h5": 10, "qx1": 4, "qy1": 4, "qx2": 4, "qy2": 16, "qx3": 16, "qy3": 4,
+     "rx1": 2, "ry1": 2, "rx2": 2, "ry2": 9, "rx3": 9, "ry3": 9, "rx4": 9, "ry4": 2,
+     "x1": -2, "y1": -2, "w1": 30, "h1": 30, "px1": -2, "py1": -2, "px2": 40, "py2": -2, "px3": -2, "py3": 40},
 ]
 
 
